@@ -32,10 +32,10 @@ def programs(tier, rnd):
     two = [(['L'], ['L']), (['L'], ['F1']), (['L', 'F1'], ['L']), (['L'], ['F1', 'L']), (['L', 'L'], ['F1']),
            (['L', 'F1', 'L'], ['F1']), (['L', 'F2'], ['L', 'F1']), (['F1', 'L'], ['F1', 'L'])]
     for r0 in (0, 1, 2):
-        for a, b in two: P.append((r0, [a, b], 350 if tier == 'quick' else 100000))
+        for a, b in two: P.append((r0, [a, b], 60 if tier == 'quick' else 100000))
     three = [(['L'], ['L'], ['F1']), (['L'], ['F1'], ['F1']), (['L'], ['L'], ['L'])]
     for r0 in (0, 1):
-        for pr in three: P.append((r0, list(pr), 200 if tier == 'quick' else 100000))
+        for pr in three: P.append((r0, list(pr), 40 if tier == 'quick' else 100000))
     if tier != 'quick':
         for r0 in (0, 1, 2):
             P.append((r0, [['L', 'F1', 'L'], ['F1', 'L'], ['L', 'F2']], 100000))
@@ -64,10 +64,12 @@ def run_check(tier, seed):
     for r0, pr, mx in progs:
         script += 'r0 %d\n' % r0 + ''.join('thread %s\n' % ' '.join(p) for p in pr) + 'dfs %d\n' % mx
         # plus seeded random schedules (the truncated depth-first search only covers one corner)
-        for _ in range(25 if tier == 'quick' else 2000):
+        for _ in range(5 if tier == 'quick' else 2000):
             script += 'sched ' + ' '.join(str(rnd.randrange(len(pr))) for _ in range(24)) + '\n'
     sp = os.path.join(d, 'c09.txt'); open(sp, 'w').write(script)
+    import time as _t; _t0 = _t.time()
     rc, out = run([os.path.join(bindir, 'ptconc'), sp, d], timeout=900)
+    ev.cov['harness_s'] = round(_t.time() - _t0, 1)
     runs = []; complete = 0; truncated = 0
     for l in out.split('\n'):
         if not l.startswith('{'): continue
